@@ -133,6 +133,12 @@ CLAIMED["C19"] = dict(
    note="Not decided: the JSON encoding itself and the HTTP transport (intrinsics), goroutine interleavings (answers out of order, the window actually limiting concurrent pushes - that is the streamer's flow control, C11), 'pushed again after the backoff' (the nack path is C04). "
         "Channels are modelled by a ghost history of what this code sent/received; blocking and buffering are not modelled. "+TRUST,
    design="9.5/C19")
+CLAIMED["C11"] = dict(
+   text="Deductive proof of the one part of streaming flow control that is a single function: the byte budget of a fetch. applyResults (what every streaming fetch goes through) accepts a candidate only while the running total of accepted payload sizes "
+        "stays within MaxBytes; the only exception is the first candidate of a fetch that is not strict, which is then the only message of the fetch. The total is a ghost prefix sum kept by the loop specification (loop ghost assignment) and pinned down in the postcondition by its recurrence, for any number of candidates.",
+   note="This is a small part of C11 and is labelled as such. NOT decided: everything in MessageStreamer.Go - the four closures that share the flow-control settings and the pending map under a mutex and run concurrently (that outstanding messages/bytes never exceed the client's limits across fetches, that strict mode is "
+        "requested whenever something is outstanding, that capacity released by an ack/nack or an outside Acknowledge wakes the sender, no stall). The verifier is sequential; a lock invariant with rely/guarantee conditions was not built. Seeded change C11b (pending recorded after the send) is therefore not caught; C11a (the running total is overwritten instead of accumulated) is. "+TRUST,
+   design="9.5/C11")
 CLAIMED["C10"]["text"] += (" W3: PublishAwaiter registers a fresh open one-shot channel for exactly that subscription and CancelPublishAwaiter removes exactly that registration (registry representation invariant preserved); in the pull action a waiter for the subscription is registered at every candidate look-up (precondition 'listening' of the query, an obligation in the verified single-transaction entry point).")
 CLAIMED["C10"]["text"] += (" W2: every state-changing action that can make a delivery available (publish, dead-letter, delay to now, seek, prune-expired, expiry, create/delete subscription, ack on ordered subscriptions) requests a wake-up of the affected subscription "
         "and does so through a commit hook that fires only after a successful commit (hook obligations).")
@@ -148,7 +154,7 @@ m={"version":1,
  "setup_cmd":"cd /verif && . ./env.sh && mkdir -p bin && cd govc && go build -o ../bin/govc .",
  "hooks":{"guard":"verif","enable":"contract files <pkg>/verif_contracts.go carry //go:build verif and contain comments only; govc loads /repo with -tags=verif",
           "baseline_off_cmd":"cd /repo && GOFLAGS=-mod=mod GOPROXY=off go test -vet=off -count=1 -timeout 25m ./...",
-          "source_commits":[l.split()[0] for l in hooks_commits if 'verif hook' in l],"add_only":True},
+          "source_commits":[l.split()[0] for l in hooks_commits if ' verif hook' in l or ' verif:' in l],"add_only":True},
  "engines":[{"name":"govc","path":"/verif/govc","serves_properties":sorted(CLAIMED),"kind_free_text":"contract-based deductive verifier for Go written for this task: go/packages+go/ssa front end, path-wise symbolic execution between cut points (= weakest preconditions on loop-free segments), contracts as //@ comments in /repo/<pkg>/verif_contracts.go, spec vocabulary in /verif/spec, obligations discharged by z3 5.1.0 / z3 4.8.12 / cvc5 1.0.3"}],
  "checks":[],
  "notes":"See DESIGN.md. Every check regenerates its verification conditions from /repo's working tree on each run.",
